@@ -33,9 +33,15 @@ def setup(common=None):
 
 def spec_str(case, which):
     s = _U["pool"][case[which.lower()] - 1]  # own copy of the spec: TLC mangles non-ASCII on output
-    if s["b"] == "":
+    coef = s.get("coef", 1)
+    if s["b"] == "" and s["ea"] == 1 and coef == 1:
         return s["a"]
-    return f"{s['a']}**{s['ea']}*{s['b']}**{s['eb']}"
+    txt = f"{s['a']}**{s['ea']}" if s["ea"] != 1 else s["a"]
+    if s["b"] != "":
+        txt += f"*{s['b']}**{s['eb']}"
+    if coef != 1:
+        txt = f"{coef}*{txt}"
+    return txt
 
 
 def unit_of(s):
@@ -136,6 +142,41 @@ def conv_routes(case, sa, sb, sc):
     add("abc", "to", "C", lambda: mk().to(ub_).to(uc_))
     add("abc", "convert", "C", lambda: inplace(mk(), ub_, uc_))
     add("abc", "to_value", "C", lambda: mk().to(ub_).to_value(uc_))
+
+    # every later use of a quantity: the source of a copy-route conversion is looked at again
+    # (a) after all copy routes were asked of one and the same source
+    x0 = mk()
+    for t in (ua_, ub_, uc_):
+        for f in (lambda t=t: x0.to(t), lambda t=t: x0.in_units(t), lambda t=t: x0.to_value(t), lambda t=t: hand(x0, t)):
+            try:
+                f()
+            except Exception:  # noqa: BLE001 - already observed above on a fresh object
+                pass
+    add("src", "copies", "A", lambda: x0)
+    # (b) A -> A (copy) -> B (in place on the copy): the result is an A -> B route; the source still is x in A
+    #     and asked again gives A -> B
+    x1 = mk()
+    add("ab", "mixed_id", "B", lambda: inplace(x1.to(ua_), ub_))
+    add("src", "mixed_id", "A", lambda: x1)
+    add("ab", "src_mixed_id", "B", lambda: x1.to(ub_))
+    # (c) A -> B (copy) -> C (in place on the copy) against A -> C; source afterwards
+    x2 = mk()
+    add("abc", "mixed", "C", lambda: inplace(x2.in_units(ub_), uc_))
+    add("src", "mixed", "A", lambda: x2)
+    add("ac", "src_mixed", "C", lambda: x2.to(uc_))
+    # (d) A -> B (copy), then the copy goes to a unit-system base in place (twin of in_base); source afterwards
+    x3 = mk()
+
+    def to_base_twin():
+        y = x3.to(ub_)
+        try:
+            y.convert_to_mks()
+        except Exception:  # noqa: BLE001 - a refusal of the unit system is not this family's business
+            y.convert_to_base("imperial")
+        return x3
+
+    add("src", "mixed_base", "A", to_base_twin)
+    add("ab", "src_mixed_base", "B", lambda: x3.to(ub_))
     return R, {"A": ua_, "B": ub_, "C": uc_}
 
 
@@ -163,6 +204,27 @@ def base_routes(case, sa):
     if sys_ in ("cgs", "mks"):
         add("base", "in_" + sys_, "B", lambda: getattr(mk(), "in_" + sys_)())
         add("base", "convert_" + sys_, "B", lambda: _cb(mk(), "convert_to_" + sys_))
+    # own-unit copy, then the in-place twin on the copy; the source afterwards
+    x1 = mk()
+    add("base", "copy_convert_base", "B", lambda: _cb(x1.to(ua_), "convert_to_base", sys_))
+    add("src", "copy_convert_base", "A", lambda: x1)
+    add("base", "src_in_base", "B", lambda: x1.in_base(sys_))
+    if sys_ in ("cgs", "mks"):
+        x2 = mk()
+        add("base", "copy_convert_" + sys_, "B", lambda: _cb(x2.in_units(ua_), "convert_to_" + sys_))
+        add("src", "copy_convert_" + sys_, "A", lambda: x2)
+    # the object in_base returned is converted on in place (to another system); the source afterwards
+    x4 = mk()
+
+    def base_then_twin():
+        try:
+            y = x4.in_base(sys_)
+            y.convert_to_base("mks" if sys_ == "cgs" else "cgs")
+        except Exception:  # noqa: BLE001 - refusals of a unit system are not this family's business
+            pass
+        return x4
+
+    add("src", "in_base_then_twin", "A", base_then_twin)
     add("bback", "to", "A", lambda: mk().in_base(sys_).to(ua_))
     add("bback", "convert", "A", lambda: inplace(_cb(mk(), "convert_to_base", sys_), ua_))
     ub_ = None
